@@ -19,7 +19,8 @@ REQUIRED_COUNTERS = {"summaries": {"quick": 20000, "thorough": 400000},
                      "pickle_roundtrips": {"quick": 20000, "thorough": 400000},
                      "frame_reachability_scans": {"quick": 2000, "thorough": 20000},
                      "real_stack_summaries": {"quick": 200, "thorough": 2000},
-                     "exiting_frames_omitted": {"quick": 500, "thorough": 10000}}
+                     "exiting_frames_omitted": {"quick": 500, "thorough": 10000},
+                     "error_sections_rendered_independently": {"quick": 2000, "thorough": 40000}}
 SHARD_TIMEOUT = {"quick": 400, "thorough": 5400}
 INTERPS = ["3.12", "3.11", "3.10", "3.9"]
 
@@ -141,7 +142,17 @@ def worker(spec):
                     if st.leaf is not None:
                         expflat.append("  Target of innermost frame: %r\n" % (st.leaf,))
                     if st.error is not None:
-                        expflat += list(st._format_error())
+                        # independent rendering: every physical line of the standard exception
+                        # rendering (minus its heading) indented by two spaces
+                        expflat.append("  Error while extracting stack:\n")
+                        for ln in traceback.format_exception(type(st.error), st.error, st.error.__traceback__):
+                            if ln != "Traceback (most recent call last):\n":
+                                for sub in ln.split("\n"):
+                                    if sub or not ln.endswith("\n" + sub):
+                                        pass
+                                for sub in ln.splitlines(True):
+                                    expflat.append("  " + sub)
+                        res.count("error_sections_rendered_independently")
                     if flat != expflat:
                         probs.append("format_flat is not header + StackSummary.format() + leaf + error lines")
                     if not flat[0].startswith("stackscope.Stack") or any(not l.endswith("\n") for l in flat):
